@@ -10,11 +10,13 @@
 // Oracle: refs:: (128-bit clamped ranges, naive search), reassembly, overload agreement, and the
 // interposed allocator must not see a request above size()+1 (+15) nor may bad_alloc escape.
 #define VF_MAIN_TU
+#include "early.h"
 #include "verif.h"
 #include "alloc.h"
 #include "ref_slice.h"
 #include "longpat.h"
 #include "st_string.h"
+#include "early_battery.h"
 
 using vf::Ctx;
 using vf::strf;
@@ -579,6 +581,7 @@ static void build(vf::Plan &plan, const vf::Opts &o)
                               });
         st.case_timeout_s = 10;
     }
+    vf_early::add_stage(plan);
 }
 
 VF_MAIN("C08", build)
